@@ -145,7 +145,7 @@ func (C11) Gen(rng *core.Rng, tier string, idx int) *core.Scenario {
 	if rng.Chance(0.35) {
 		segSf := float64(a.SegDurMS) / 1000
 		cfg.Ato = core.Pick(rng, []string{"0.5", "1", "1.5", fmt.Sprintf("%.3f", segSf/2), fmt.Sprintf("%.3f", segSf-0.5),
-			fmt.Sprintf("%.3f", segSf), fmt.Sprintf("%.3f", segSf+0.5), fmt.Sprintf("%.3f", segSf*1.5), fmt.Sprintf("%.3f", segSf*2.5)})
+			fmt.Sprintf("%.3f", segSf), fmt.Sprintf("%.3f", segSf+0.5), fmt.Sprintf("%.3f", segSf*1.5), fmt.Sprintf("%.3f", segSf*2.5), "-0.5", "-1.5"})
 		atoMS = int64(math.Round(cfg.AtoS() * 1000))
 		if rng.Chance(0.5) {
 			cfg.ChunkDur = core.Pick(rng, []string{"0.25", "0.5", "1"})
